@@ -82,8 +82,16 @@ func vfH_control_step() {
 		vfAssert(f.lenForm == 0 && f.length == n, "control-length")
 		vfAssert(vfAllEq(f.payload, orig), "control-payload")
 		// C10: written under its own deadline argument
-		vfAssert(len(wt.ops) == 2 && wt.ops[0].kind == vfOpSetWriteDeadline, "c10-deadline-set-before-write")
-		vfAssert(wt.ops[0].t == deadline, "c10-control-own-deadline")
+		// the deadline in force on the transport when the frame is written is the call's own
+		var eff time.Time
+		for _, op := range wt.ops {
+			if op.kind == vfOpSetWriteDeadline {
+				eff = op.t
+			}
+			if op.kind == vfOpWrite {
+				vfAssert(eff == deadline, "c10-control-own-deadline")
+			}
+		}
 		if !isServer {
 			vfAssert(len(vfMaskRand.draws) == 1 && vfAllEq(f.key[:], vfMaskRand.draws[0]), "mask-key-fresh-draw")
 		}
